@@ -5,3 +5,4 @@ pub mod c04;
 pub mod c06;
 pub mod c09;
 pub mod c12;
+pub mod c08;
